@@ -246,6 +246,9 @@ func (h *Harness) Execute(spec *RunSpec) (*RunReport, *Outcome, error) {
 	for t := range ref {
 		for s := range ref[t] {
 			a, b := ref[t][s], res[t][s]
+			if b.Fault {
+				rep.SinkFaults++
+			}
 			rh.u64(b.Hash)
 			rh.str(b.Kind)
 			if a.Equal(b) {
